@@ -20,6 +20,80 @@ FAMILY = ['srv_values', 'srv_layout', 'srv_one_cccd', 'srv_prio', 'srv_nine', 's
 INCLUDES = [('srv_includes', 'inc_target_a'), ('srv_includes', 'inc_target_b'), ('srv_layout', 'svc_secondary')]
 
 
+def inverse_rules(chk, facts):
+    from .lib.linear import Lin, lin
+    R = 'inverse-mapping-agrees'
+
+    def pos_guard(fn, r):
+        """the one guard atom of return r that holds on the taken (true) edge: the innermost `param OP X`"""
+        ats = guard_atoms(fn, r)
+        return ats[0] if ats else None
+
+    for fn in [f for f in facts.fns(D + 'characteristic_index_mapping::characteristic_attribute_index_by_handle') if f.kind == 'pattern']:
+        h = fn.params[0]['n']
+        want = [('declaration_handle', 0), ('value_handle', 1), ('cccd_handle', 2)]
+        rets = fn.returns()
+        probs = []
+        chk.require(len(rets) == 4 and all(pos_guard(fn, r) and is_name(pos_guard(fn, r)[0], h) and pos_guard(fn, r)[1] == '<=' and not isinstance(pos_guard(fn, r)[2], int) for r in rets[:3]),
+                    'characteristic_attribute_index_by_handle is no longer a list of `if ( handle <= X ) return ..;` tests followed by one return: idiom not recognised')
+        if len(rets) == 4:
+            for r, (hn, pos) in zip(rets, want):
+                g = pos_guard(fn, r)
+                if not (g and is_name(g[0], h) and g[1] == '<=' and not isinstance(g[2], int) and strip_casts(g[2]).n == hn):
+                    probs.append('return %d is taken under %s <= %s instead of %s' % (pos, h, strip_casts(g[2]).text() if g else '?', hn))
+                elif lin(fn, ret_value(r)) != Lin(pos, {'StartIndex': 1}):
+                    probs.append('under %s <= %s the index is %s, the forward mapping has %s at StartIndex + %d' % (h, hn, lin(fn, ret_value(r)), hn, pos))
+            last = lin(fn, ret_value(rets[3]))
+            if last != Lin(2, {'StartIndex': 1, h: 1, 'cccd_handle': -1}):
+                probs.append('descriptors behind the CCCD: index %s, the forward mapping gives handle cccd_handle + (index - StartIndex - 2)' % last)
+        chk.instance(R, fn, 'characteristic: handle -> index mirrors index -> handle', not probs, '; '.join(probs), key='char index by handle')
+    for fn in [f for f in facts.fns(D + 'service_index_mapping::characteristic_first_index_by_handle') if f.kind == 'pattern']:
+        h = fn.params[0]['n']
+        rets = fn.returns()
+        probs = []
+        if len(rets) != 3:
+            probs.append('expected 3 returns')
+        else:
+            g0, g1 = pos_guard(fn, rets[0]), pos_guard(fn, rets[1])
+            if not (g0 and is_name(g0[0], h) and g0[1] == '<=' and is_name(g0[2], 'service_handle') and lin(fn, ret_value(rets[0])) == Lin(0, {'StartIndex': 1})):
+                probs.append('handles up to the service declaration do not map to StartIndex')
+            if not (g1 and is_name(g1[0], h) and g1[1] == '<' and not isinstance(g1[2], int) and lin(fn, g1[2]) == Lin(0, {'service_handle': 1, 'number_of_service_attributes': 1})
+                    and lin(fn, ret_value(rets[1])) == Lin(0, {'StartIndex': 1, h: 1, 'service_handle': -1})):
+                probs.append('include declarations are not mapped by their offset to the service declaration')
+            v = strip_casts(ret_value(rets[2]))
+            if not (v.is_call('attribute_index_by_handle') and len(v.args()) == 1 and is_name(v.args()[0], h)):
+                probs.append('characteristic handles are not delegated to the characteristic mappings')
+        chk.instance(R, fn, 'service: declaration and include declarations by offset, rest delegated', not probs, '; '.join(probs), key='service first index by handle')
+    ITER = [('interate_characteristic_index_mappings::attribute_index_by_handle', 'end_handle', 'characteristic_attribute_index_by_handle', 'attribute_index_by_handle'),
+            ('interate_characteristic_index_mappings::attribute_handle_by_index', 'end_index', 'characteristic_attribute_handle_by_index', 'attribute_handle_by_index'),
+            ('interate_service_index_mappings::service_first_index_by_handle', 'end_handle', 'characteristic_first_index_by_handle', 'service_first_index_by_handle'),
+            ('interate_service_index_mappings::service_handle_by_index', 'end_index', 'characteristic_handle_by_index', 'service_handle_by_index')]
+    for q, end, own, rec in ITER:
+        fns = [f for f in facts.fns(D + q) if f.kind == 'pattern']
+        chk.require(len(fns) == 2, '%s: expected the recursion and its tuple<> terminator, found %d patterns' % (q, len(fns)))
+        for fn in fns:
+            rets = fn.returns()
+            if len(rets) == 1:
+                v = strip_casts(ret_value(rets[0]))
+                ok = v.n in ('invalid_attribute_index', 'invalid_attribute_handle') and not fn.guards(rets[0])
+                chk.instance(R, fn, '%s< tuple<> > -> %s' % (q.split('::')[0], v.n), ok, '' if ok else 'the end of the list does not yield the invalid value', key=q.split('::')[-1] + ' end')
+                continue
+            a = fn.params[0]['n']
+            probs = []
+            if len(rets) != 2:
+                probs.append('expected 2 returns')
+            else:
+                g = pos_guard(fn, rets[0])
+                if not (g and is_name(g[0], a) and g[1] == '<' and not isinstance(g[2], int) and strip_casts(g[2]).n == end):
+                    probs.append('own range is not selected by %s < %s' % (a, end))
+                v0, v1 = strip_casts(ret_value(rets[0])), strip_casts(ret_value(rets[1]))
+                if not (v0.is_call(own) and len(v0.args()) == 1 and is_name(v0.args()[0], a)):
+                    probs.append('own range is not answered by %s(%s)' % (own, a))
+                if not (v1.is_call(rec) and len(v1.args()) == 1 and is_name(v1.args()[0], a)):
+                    probs.append('the remaining elements are not asked with the unchanged argument')
+            chk.instance(R, fn, '%s: %s < %s ? %s : next' % (q.split('::')[-1], a, end, own), not probs, '; '.join(probs), key=q.split('::')[-1])
+
+
 def run(chk, facts, tier):
     chk.rule('layout-witness', 'for every witness declaration: handles non-zero, strictly increasing in declaration order, fixed handles honoured, one handle per attribute, characteristics fill the service exactly', floor=7)
     chk.rule('include-witness', 'every include declaration of the witness family names the real first and last handle of the included service', floor=3)
@@ -28,6 +102,10 @@ def run(chk, facts, tier):
     chk.rule('index-by-handle-exact', 'handle_index_mapping::index_by_handle yields an index only if handle_by_index(index) == handle', floor=1)
     chk.rule('declaration-names-own-value', 'char_declaration_access takes the value handle from handle_by_index(attribute_index + 1)', floor=1)
     chk.rule('access-with-fetch-index', 'every attribute_at(i).access(args, j) in the server passes j == i (the index the attribute was fetched with)', floor=5)
+    chk.rule('inverse-mapping-agrees', 'the handle -> index direction mirrors the index -> handle direction: characteristic_attribute_index_by_handle returns StartIndex + position(X) under handle <= X_handle for '
+             'X = declaration, value, cccd (in that order) and StartIndex + cccd_position + handle - cccd_handle beyond; characteristic_first_index_by_handle maps the service and include declarations by offset; '
+             'the iterating mappings compare a handle with end_handle and an index with end_index and pass their argument on unchanged', floor=6)
+    inverse_rules(chk, facts)
     src = PRELUDE + '#include "wit_layout.hpp"\n'
     obl = []
     for s in FAMILY:
